@@ -10,6 +10,7 @@ K (model vs implementation): sampling points against the model's exact rationals
   (fed with the ceil sequence of the float carry) against mpire's own chunking of the same array; the model's
   parallel map run on the completion order that was observed."""
 from lib import *  # noqa
+import argforms as AF
 import contextlib, io, math, signal, tempfile, time
 from koala import phase_diagrams as pd
 import mpire.utils as mpu
@@ -61,6 +62,29 @@ class limit:
 def quiet():
     with open(os.devnull, "w") as dn, contextlib.redirect_stdout(dn), contextlib.redirect_stderr(dn):
         yield
+
+
+# ------------------------------------------------------------------ argument forms (argforms.py)
+# compute_phase_diagram(sampling_points, ...): the (n, 3) float array of sampling points in C order, Fortran order (what the
+# sampling functions themselves return: np.array([xs, ys, zs]).T), as a non-contiguous view, read-only.  `samples`: Python int vs
+# numpy integer.  Form chosen from the case (replayable); the serial reference and the model get the values.
+AF_POINTS = ["float64+C", "float64+F", "float64+strided", "float64+readonly", "float64+F+readonly"]
+AF_SAMPLES = ["int", "np.int64", "np.int32", "np.int16", "np.uint8", "np.intp"]
+AF_EXCLUDED = {
+    ("compute_phase_diagram.sampling_points", "list of lists / list of arrays"): "no docstring; the usage comment passes the array returned by get_*_sampling_points.  mpire hands a numpy array to the worker "
+        "chunk-wise (computation(extra_args, Js) gets a chunk) but unpacks the elements of a list as arguments: TypeError 'computation() takes 2 positional arguments but 4 were given' "
+        "-- arguable, reported to the lead, kept out of the generator",
+    ("compute_phase_diagram.sampling_points", "float32"): "the function values then are computed from rounded coordinates (not the same numbers)",
+    ("compute_phase_diagram.n_jobs", "numpy integer"): "passed through to mpire.WorkerPool, which needs a Python int (np.int64: TypeError inside mpire; np.uint8: koala's own -(-n // (4*n_jobs)) overflows)",
+}
+
+
+def arg_forms(res, arg, value, *key):
+    for (a, f), why in AF_EXCLUDED.items():
+        AF.exclude(res, a, f, why)
+    if arg == "samples":
+        return AF.choose_scalar(res, "get_*_sampling_points.samples", value, AF_SAMPLES, *key)
+    return AF.choose(res, "compute_phase_diagram.sampling_points", value, AF_POINTS, *key, base=np.float64)
 
 
 # ------------------------------------------------------------------ sampling points
@@ -154,7 +178,7 @@ def evaluate_sampling(ctx, sizes):
             case = {"kind": "sampling", "s": s, "scheme": scheme}
             try:
                 with limit(120):
-                    tp, tris = fn(samples=s)
+                    tp, tris = fn(samples=arg_forms(res, "samples", s, scheme))
             except Exception as e:
                 res.count("sampling/" + scheme)
                 res.violation(f"sampling:{scheme}:exception", f"samples={s}: {type(e).__name__}: {e}", case)
@@ -316,7 +340,8 @@ def evaluate_compute(ctx, cases):
         pd.WorkerPool = SpyPool
         try:
             with limit(300), quiet():
-                data = pd.compute_phase_diagram(pts, fn, extra, n_jobs=c["n_jobs"])
+                pts_arg = arg_forms(res, "points", pts, c["func"], c["n_jobs"])
+                data = pd.compute_phase_diagram(pts_arg, fn, extra, n_jobs=c["n_jobs"])
         except Exception as e:
             pd.WorkerPool = orig_pool
             LOG_PATH = None
@@ -335,6 +360,8 @@ def evaluate_compute(ctx, cases):
         os.unlink(path)
         data = np.asarray(data)
         res.count(fam, digest(c) if c["n_jobs"] >= 2 else None)
+        if not np.array_equal(pts_arg, pts):
+            res.violation("compute:modifies-sampling-points", "compute_phase_diagram modified the sampling points passed to it", c)
         if data.shape != serial.shape or not np.array_equal(data, serial):
             what = (f"shape {data.shape} instead of {serial.shape}" if data.shape != serial.shape else
                     f"{int(np.sum(data != serial))} entries differ, first at {np.argwhere(data != serial)[0].tolist()}")
